@@ -37,6 +37,15 @@ def split_frontmatter(text: str) -> tuple[str, str]:
     return text, ""
 
 
+def frontmatter_is_closed(frontmatter: str) -> bool:
+    """
+    Check if a frontmatter string returned by `split_frontmatter()` has a closing
+    `---` line. It does not if the opening `---` was never closed (in which case the
+    whole document was returned as frontmatter, so it holds only the opening `---`).
+    """
+    return sum(1 for line in frontmatter.split("\n") if line.strip() == "---") >= 2
+
+
 def has_frontmatter(text: str) -> bool:
     """
     Check if the text starts with YAML frontmatter.
